@@ -58,7 +58,7 @@ Definition dispatch_file (toks : list (list N)) : option (list N * list N) :=
       else if is "csched" op then   (* csched k W limit sched recs *)
         let r := m_csched (parse_nat sz) (parse_nat threads) (parse_dec mem) (parse_nats container) (parse_hex_list recs) in Some (r, r)
       else if is "cgrfile" op then
-        let rs := parse_hex_list recs in Some (m_cgrfile (parse_Z sz) rs, s_cgrfile (parse_Z sz) rs)
+        let rs := parse_hex_list recs in Some (m_cgrfile_mem (parse_Z sz) (cap_mem (parse_dec mem) rs) rs, s_cgrfile (parse_Z sz) rs)
       else if is "s2m" op then   (* s2m w m threads container recs *)
         let rs := parse_hex_list recs in Some (m_s2m (parse_nat sz) (parse_nat threads) rs, s_s2m (parse_nat sz) (parse_nat threads) rs)
       else if is "m2s" op then
@@ -67,7 +67,7 @@ Definition dispatch_file (toks : list (list N)) : option (list N * list N) :=
   | [op; k; sz; norm; threads; mem; container; recs] =>
       if is "ocgrfile" op then
         let rs := parse_hex_list recs in
-        Some (m_ocgrfile (parse_nat k) (parse_Z sz) (flag norm) rs, s_ocgrfile (parse_nat k) (parse_Z sz) (flag norm) rs)
+        Some (m_ocgrfile_mem (parse_nat k) (parse_Z sz) (flag norm) (cap_mem (parse_dec mem) rs) rs, s_ocgrfile (parse_nat k) (parse_Z sz) (flag norm) rs)
       else if is "covfs" op then    (* covfs k bs bc norm limit plant recs *)
         let rs := parse_hex_list recs in
         Some (m_covfs (parse_nat k) (parse_nat sz) (parse_nat norm) (flag threads) (parse_dec mem) (flag container) rs,
